@@ -22,7 +22,7 @@ POOL = recipes.DRQ + recipes.WO + ['fp16', 'noq', 'wo4a_cw']
 
 
 def plan(tier):
-  return {'n_cases': 500 if tier == 'quick' else 10000, 'shards': 16}
+  return {'n_cases': 500 if tier == 'quick' else 40000, 'shards': 16}
 
 
 def run_all(content, key, x):
